@@ -160,8 +160,8 @@ PROPS["C12"] = {
     "rule": ("cases = input texts given to the real idl.Parse and (ASCII ones) replayed on the Lean model Stef.Idl.parse: all "
              "checked-in .stef files, every single-token deletion / duplication / replacement (whole token vocabulary) and every "
              "token prefix of a schema covering all grammar productions and of the small checked-in schemas, sampled token and "
-             "byte mutations of the large ones and of grammar-generated schemas, token soups, random ASCII, non-ASCII (real code "
-             "only); a case is non-trivial when the parser gets past the package clause (an accepted schema with at least one "
+             "byte mutations of the large ones and of grammar-generated schemas, generated schemas in which one enum repeats a "
+             "member name, token soups, random ASCII, non-ASCII (real code only); a case is non-trivial when the parser gets past the package clause (an accepted schema with at least one "
              "struct, a panic, or an error other than at the package clause); distinct by hash of the input text"),
     "trusted_base": COMMON_TB + [
         "Stef/Idl.lean is a hand transcription of go/pkg/idl/{lexer,parser,utils}.go and of ResolveRefs/computeRecursive/"
@@ -174,10 +174,11 @@ PROPS["C12"] = {
                     "strconv.ParseUint(s, 0, 64) as modelled in Stef/Idl.lean (parseUint) on the lexer's number alphabet"],
 }
 PROPS["C12"]["level_text"] = (
-    "Theorems over the transcribed lexer+parser+post-processing (Stef/Props/C12.lean): accepted schemas are well-formed, errors "
-    "carry a position inside the input, exact characterisation of the one reachable panic (negation of the full no-panic "
-    "statement proved from the witness, partial theorem under the excluding hypothesis); tied to go/pkg/idl by op-for-op "
-    "differential runs (outcome, schema dump, error position and class).")
+    "Theorems over the transcribed lexer+parser+post-processing for every input (Stef/Props/C12.lean): accepted schemas are "
+    "well-formed (references resolve uniquely, top-level names, struct field names and enum member names unique, roots non-empty, "
+    "no field without a type), errors carry a position inside the input, no panic site is reachable (full statement since "
+    "a64277c), enum member uniqueness (full statement since ed6fa67), the model's loop fuel is never exhausted; tied to go/pkg/idl "
+    "by op-for-op differential runs (outcome, schema dump, error position and class).")
 
 PROPS["C13"] = {
     "lean_modules": ["Stef.Props.C13"],
